@@ -8,30 +8,31 @@ Proof.
   intros Hs Hwf.
   pose proof (header_ok sepc p Hs Hwf) as Hh.
   pose proof (rows_lines_ok sepc p Hs Hwf) as HRL.
-  destruct Hwf as (_ & _ & _ & _ & _ & _ & _ & Hdd).
+  destruct Hwf as (_ & _ & _ & _ & _ & _ & Hdd).
   unfold pin_lines. constructor; [exact Hh|]. apply Forall_app. split; [|exact HRL].
   destruct (dd p) as [d|]; [|constructor]. destruct Hdd as (Hp & Hn & Hld).
   constructor; [|constructor]. apply dd_line_ok; assumption.
 Qed.
 
-(* a rendered well-formed PIN has a header and at least one more line: is_valid_tsv does not raise *)
+(* a rendered well-formed PIN has a header line (and any number of further lines, none included):
+   is_valid_tsv does not raise *)
+Lemma with_nl_nonempty final_nl l ls : with_nl final_nl (l :: ls) <> [].
+Proof. destruct ls; [destruct final_nl|]; discriminate. Qed.
+
 Lemma is_valid_total sepc final_nl p : sepc <> NL -> wf sepc p ->
   exists b, is_valid_sep sepc (render_pin sepc final_nl p) = Ok b.
 Proof.
   intros Hs Hwf. pose proof (pin_lines_ok sepc p Hs Hwf) as HL.
-  destruct Hwf as (_ & _ & _ & _ & _ & Hne & _).
   unfold is_valid_sep, render_pin.
   rewrite lines_render by (eapply Forall_impl; [|exact HL]; intros l; apply line_ok_render).
   unfold pin_lines.
-  assert (map (row_line sepc) (rows p) <> []) as Hne' by (destruct (rows p); [congruence|discriminate]).
-  rewrite with_nl_cons by (destruct (dd p); [discriminate|exact Hne']).
-  destruct (with_nl final_nl ((match dd p with Some d => [d] | None => [] end) ++ map (row_line sepc) (rows p)))
-    as [|l2 more] eqn:EW.
-  { exfalso. destruct (dd p) as [d|]; simpl in EW.
-    - destruct (map (row_line sepc) (rows p)); [congruence|discriminate].
-    - destruct (map (row_line sepc) (rows p)) as [|a [|b l]]; [congruence| |]; simpl in EW; [destruct final_nl|]; discriminate. }
-  destruct (prefixb DEFAULTDIRECTION l2); [eexists; reflexivity|].
-  destruct (negb _); eexists; reflexivity.
+  destruct (with_nl final_nl
+              (join sepc (hdr p) :: (match dd p with Some d => [d] | None => [] end) ++ map (row_line sepc) (rows p)))
+    as [|h [|l2 more]] eqn:EW.
+  - exfalso. exact (with_nl_nonempty _ _ _ EW).
+  - eexists; reflexivity.
+  - destruct (prefixb DEFAULTDIRECTION l2); [eexists; reflexivity|].
+    destruct (negb _); eexists; reflexivity.
 Qed.
 
 Theorem pin_verify_ok final_nl p : wf TAB p -> out_ok TAB [COLON] p ->
